@@ -243,6 +243,24 @@ export function gen(rng, params, mode) {
     return [A("sub"), A(String(counter++)), decls, x, y, src];
   }
   if (rng.chance(1, 10)) {
+    // intersections of unions that SHARE a named type (`(A | C) & (A | D)`): both diagrams then have the same root atom, the
+    // one arm of the diagram operations that inline types (a fresh atom each) never reach; also at a property position
+    const mkObj = (k, t) => [A("obj"), [[k, A("false"), t]], A("none")];
+    const ds = [...decls.filter((d) => !["Sa", "Sc", "Sd"].includes(d[1])), [A("alias"), "Sa", [], mkObj("a", A("string"))], [A("alias"), "Sc", [], mkObj("c", A("string"))],
+      [A("alias"), "Sd", [], rng.chance(1, 2) ? mkObj("d", A("string")) : [A("tuple"), [A("number")], A("none")]]];
+    const r = (n) => [A("ref"), n];
+    const shared = rng.pick(["Sa", "Sc", "Sd"]), others = ["Sa", "Sc", "Sd"].filter((n) => n !== shared);
+    const u1 = rng.chance(1, 2) ? [A("union"), r(shared), r(others[0])] : [A("union"), r(others[0]), r(shared)];
+    const u2 = rng.chance(1, 2) ? [A("union"), r(shared), r(others[1])] : [A("union"), r(others[1]), r(shared)];
+    const wrap = rng.pick([(t) => t, (t) => t, (t) => mkObj("p", t)]);
+    const inter = rng.chance(1, 3) ? [A("inter"), wrap(u1), wrap(u2)] : wrap([A("inter"), u1, u2]);
+    const cands = [r(shared), r(others[0]), r(others[1]), u1, u2, [A("union"), r(others[0]), r(others[1])]].map(wrap);
+    let x = inter, y = rng.pick(cands);
+    if (rng.chance(1, 2)) [x, y] = [y, x];
+    const src = ds.map(tsOfDecl).join("\n") + `\nparse.buildParsers<{ R: (${tsOf(x)}) extends (${tsOf(y)}) ? "yes" : "no" }>();\n`;
+    return [A("sub"), A(String(counter++)), ds, x, y, src];
+  }
+  if (rng.chance(1, 10)) {
     // named unions of literals that overlap each other or a literal written next to them: the union of the operands then
     // meets the same literal on both sides (`type A = 1 | 2; 2 extends A | 2 | 3`)
     const pool = rng.chance(1, 2) ? [lit("n", "1"), lit("n", "2"), lit("n", "3")] : [lit("s", "a"), lit("s", "b"), lit("s", "c")];
